@@ -155,7 +155,7 @@ fn check_mut(c: &MutCase, rec: &mut Rec) -> CheckResult {
 /// the library must compile with `-F unsafe_code`.
 fn unsafe_lint(e: &Engine) {
     let repo = std::env::var("VERIF_REPO").unwrap_or_else(|_| "/repo".to_string());
-    let target = format!("{}/target/lint", VERIF_DIR);
+    let target = std::env::var("VERIF_LINT_TARGET").unwrap_or_else(|_| format!("{}/target/lint", VERIF_DIR));
     let t0 = std::time::Instant::now();
     let out = std::process::Command::new("cargo")
         .args(["rustc", "--offline", "--lib", "--features", "levenshtein", "--target-dir", &target, "--", "-F", "unsafe_code"])
